@@ -25,6 +25,7 @@ Proof.
   - exact lp_lits_exact.
   - apply forallb_forall. vm_compute. reflexivity.
   - repeat constructor; cbn; auto.
+  - cbn; tauto.
   - intros x Hx Hg. cbn in Hx, Hg. destruct Hg as [Hg|[]]. subst x. destruct Hx as [Hx|[Hx|[]]]; inversion Hx.
   - repeat constructor; cbn; intuition discriminate.
 Qed.
